@@ -25,7 +25,7 @@ def _forced(core, ns):
 
 
 @rigged
-def job(src, kind='start', k=5, target_index=1):
+def job(src, kind='start', k=5, target_index=1, fails=False):
     """H10a: one real start (or stop) job against a target whose ticks, events and silences are solver-chosen; an
     independent monitor computes the tick deadline"""
     from supvisors.ttypes import StartingStrategies
@@ -77,6 +77,8 @@ def job(src, kind='start', k=5, target_index=1):
             choices += ['ack', 'ack_dropped']
         elif phase == 'acknowledged':
             choices += ['final', 'final_dropped'] + (['backoff'] if kind == 'start' and backoffs < 2 else [])
+            if kind == 'start' and fails:
+                choices += ['gives_up', 'exits_early']
         what = src.pick(f'step{step}', choices)
         in_progress_before = commander.in_progress()
         if what == 'target_ticks':
@@ -110,6 +112,16 @@ def job(src, kind='start', k=5, target_index=1):
             core.process_event(target, 'app', 'p', PS.STARTING)
             backoffs += 1
             ref = c
+        elif what == 'gives_up':
+            # the Supervisor of the target exhausts its retries: BACKOFF then FATAL, reported by the target itself
+            core.process_event(target, 'app', 'p', PS.BACKOFF, expected=False, spawnerr='exited too quickly')
+            core.process_event(target, 'app', 'p', PS.FATAL, expected=False, spawnerr='exited too quickly')
+            phase = 'failed'
+        elif what == 'exits_early':
+            # the program passes startsecs on the target and dies before the RUNNING event is processed here: RUNNING
+            # is dropped, EXITED (unexpected) arrives
+            core.process_event(target, 'app', 'p', PS.EXITED, expected=False)
+            phase = 'failed'
         elif what in ('final', 'final_dropped'):
             if what == 'final':
                 core.process_event(target, 'app', 'p', PS.RUNNING if kind == 'start' else PS.STOPPED)
@@ -147,6 +159,12 @@ def job(src, kind='start', k=5, target_index=1):
                     src.reach('in-time')
                     src.check('not-abandoned-before-the-deadline', cmd_pending, sig=f'{kind}:{phase}', c=c, ref=ref,
                               secs=secs)
+        if phase == 'failed':
+            src.reach('failed')
+            src.check('job-done-on-failure-event', not cmd_pending, sig=f'{kind}:{what}')
+            src.check('failure-displayed', proc.displayed_state in (PS.FATAL, PS.EXITED), sig=f'{kind}:{what}',
+                      displayed=proc.displayed_state)
+            break
         if phase == 'done':
             if wait_exit:
                 src.reach('wait-exit')
@@ -179,6 +197,10 @@ HARNESSES = [
     Harness('H10-stop', job, quick={'kind': 'stop', 'k': 6}, thorough={'kind': 'stop', 'k': 8},
             reach=('overdue', 'in-time', 'done', 'target-lost'), timeout=(150, 1200),
             doc='stop job: same with stopwaitsecs'),
+    Harness('H10-fails', job, quick={'kind': 'start', 'k': 4, 'fails': True}, thorough={'kind': 'start', 'k': 7, 'fails': True},
+            reach=('failed', 'overdue', 'done'), timeout=(120, 1200),
+            doc='start job whose program gives up on the target (BACKOFF -> FATAL) or dies before RUNNING is seen '
+                '(EXITED): the job ends on that report and the sequence moves on (the program is not required)'),
     Harness('H10-local', job, quick={'kind': 'start', 'k': 3, 'target_index': 0}, thorough=None,
             reach=('overdue', 'in-time', 'done'), timeout=(60, 0), doc='the target is the local instance'),
 ]
